@@ -243,4 +243,90 @@ Proof.
     pose proof (forallb_skipn_nth _ _ _ _ _ Hok1 Hi Hna) as Q. now apply status_eqb_eq in Q.
 Qed.
 End OneSeq.
+
+(* ------------------------------------------------------------------ sequences that are not resumed *)
+(* in a block the state chain may still enter (not finished after the repair, the plan not finished either) a
+   sequence that fixBlock did not resume is NotStarted, Completed or Failed after the repair *)
+Lemma rs2_holds fl b q :
+  is_terminal (pln_st sh I fl) = false -> seq_of sh b q <> None -> is_terminal (blk_st sh I fl b) = false ->
+  ~ In (b, q) (resumed sh I) -> seq_st0 sh I b q = NotStarted \/ cf (seq_st0 sh I b q).
+Proof.
+  intros Hpl Hq Hnt Hnr. unfold seq_of in Hq. destruct (block_of sh b) as [bs|] eqn:Hb; [|contradiction].
+  destruct (nth_error (bs_seqs bs) q) as [rs|] eqn:Hqs; [|contradiction].
+  destruct (base_seq b q bs rs Hb Hqs [] Hnr) as (s' & Hg & Hs').
+  assert (E0 : seq_st0 sh I b q = F.sq_st s').
+  { unfold seq_st0, base0, pl_cell. fold p. rewrite Hg. reflexivity. }
+  rewrite E0.
+  assert (Hne : plan_early sh I = false).
+  { destruct (plan_early sh I) eqn:He; [|reflexivity]. exfalso. rewrite <- early_iff in He.
+    pose proof (FF.fix_plan_early_terminal (oracle fl) (pln_of sh I) Hrun He) as Ht.
+    unfold pln_st, pl_cell, fixed in Hpl. simpl in Hpl. rewrite Ht in Hpl. discriminate. }
+  pose proof (fixed_blk sh I Hwf Hrun fl b bs Hb Hne) as Hgb.
+  unfold blk_st, pl_cell in Hnt. rewrite Hgb in Hnt. simpl in Hnt.
+  destruct Hs' as [[-> Hc]|[-> (Hnrun & _ & _)]].
+  - destruct Hc as [He|[Hbn|[Hbr Hf]]]; [congruence| |].
+    + left. rewrite seq_img_st.
+      assert (Hnr' : F.bk_st (blk_of sh I b bs) <> Running) by exact Hbn.
+      rewrite (FP.fix_block_other _ _ Hnr') in Hnt. simpl in Hnt.
+      pose proof (wf_block sh I Hwf _ _ Hb) as Hw. unfold block_wf in Hw. apply andb_true_iff in Hw as [Hw _].
+      pose proof (wf_seq sh I Hwf _ _ _ _ Hb Hqs) as Hws. unfold seq_wf in Hws. apply andb_true_iff in Hws as [Hws _].
+      apply andb_true_iff in Hws as [_ Hws].
+      destruct (ist I (OBlock b)); try discriminate; try contradiction. simpl in Hws. now apply status_eqb_eq.
+    + exfalso. rewrite (FF.fb_full_indep (oracle []) (oracle fl)) in Hf.
+      assert (Hbr' : F.bk_st (blk_of sh I b bs) = Running) by exact Hbr.
+      rewrite (FF.fix_block_early_terminal _ _ Hbr' Hf) in Hnt. discriminate.
+  - pose proof (img_seq_not_stopped sh I Hwf _ _ _ _ Hb Hqs) as H4.
+    destruct (F.sq_st (F.fix_seq (seq_of_img sh I b q rs))); try contradiction; auto; right; [left|right]; reflexivity.
+Qed.
+
+(* ------------------------------------------------------------------ check actions *)
+Lemma act_cell_reset a : act_cell (F.reset_action a) = cell0.
+Proof. reflexivity. Qed.
+
+Lemma ochk_cell_ok sc gs g i c :
+  (forall rs, grp_get gs g = Some rs -> i < length rs -> act_ok (iget I (OAct (AChk sc g i)))) ->
+  c = ochk_of I sc gs g \/ c = F.fix_checks_opt (ochk_of I sc gs g) -> act_ok (ochk_act_cell c i).
+Proof.
+  intros Hok Hc. unfold ochk_of in Hc. destruct (grp_get gs g) as [rs|] eqn:G.
+  2:{ destruct Hc as [-> | ->]; apply act_ok_cell0. }
+  assert (Hn : nth_error (F.ck_acts (chk_of I sc g rs)) i = if i <? length rs then Some (act_of I 0 (AChk sc g i)) else None).
+  { unfold chk_of. cbn [F.ck_acts]. exact (nth_map_seq (fun i => act_of I 0 (AChk sc g i)) (length rs) i). }
+  assert (H1 : act_ok (ochk_act_cell (Some (chk_of I sc g rs)) i)).
+  { unfold ochk_act_cell. rewrite Hn. destruct (i <? length rs) eqn:L; [|apply act_ok_cell0].
+    rewrite act_cell_enc. apply encc_act_ok. apply (Hok rs eq_refl). now apply Nat.ltb_lt. }
+  destruct Hc as [-> | ->]; [exact H1|]. cbn [option_map F.fix_checks_opt]. unfold F.fix_checks.
+  destruct (negb (status_eqb (F.ck_st (chk_of I sc g rs)) Running)); [exact H1|].
+  unfold ochk_act_cell. cbn [F.ck_acts]. rewrite nth_error_map.
+  destruct (nth_error (F.ck_acts (chk_of I sc g rs)) i); [apply act_ok_cell0|apply act_ok_cell0].
+Qed.
+
+Lemma mem0_no_chk sc g i : ifind (mem0 p) (OAct (AChk sc g i)) = None.
+Proof.
+  destruct (ifind (mem0 p) (OAct (AChk sc g i))) as [c|] eqn:E; [|reflexivity].
+  apply ifind_in, mem0_in in E as (b' & q' & s0 & _ & Hin).
+  destruct (seq_objs_in _ _ _ _ _ Hin) as [[Eo _]|(i' & a' & Eo & _)]; discriminate.
+Qed.
+
+Lemma m0_chk_act sc g i : obj_in_shape sh (OAct (AChk sc g i)) = true -> act_ok (m0 (OAct (AChk sc g i))).
+Proof.
+  intro Hs. unfold FixMem.m0, over. fold p. rewrite mem0_no_chk. unfold base0, pl_cell.
+  assert (Hok : forall gs, scope_groups sh sc = Some gs ->
+            forall rs, grp_get gs g = Some rs -> i < length rs -> act_ok (iget I (OAct (AChk sc g i)))).
+  { intros gs Hg rs Hr Hi. apply (ic_act sh _ Hic). exact Hs. }
+  destruct sc as [|b].
+  - apply (ochk_cell_ok SPlan (sh_groups sh) g i); [apply Hok; reflexivity|].
+    destruct (FP.fix_plan_grp (oracle []) p g) as [E|E]; unfold fixed; rewrite E; [left|right]; destruct g; reflexivity.
+  - unfold FS.get_bgrp. destruct (block_of sh b) as [bs|] eqn:Hb.
+    2:{ assert (Hn : FS.get_blk (F.fp_pln (fixed [] p)) b = None).
+        { unfold FS.get_blk. apply nth_error_None. unfold fixed. rewrite FP.fix_plan_nblocks.
+          unfold p, pln_of. cbn [F.pl_blocks]. rewrite map_length. unfold indexed. rewrite combine_length, seq_length, Nat.min_id.
+          unfold block_of in Hb. now apply nth_error_None. }
+        rewrite Hn. apply act_ok_cell0. }
+    assert (Hg : FS.get_blk p b = Some (blk_of sh I b bs)) by (unfold p; rewrite get_blk_of, Hb; reflexivity).
+    apply (ochk_cell_ok (SBlock b) (bs_groups bs) g i).
+    + apply Hok. unfold scope_groups. now rewrite Hb.
+    + destruct (fixed_blk_cases [] p b _ Hg) as [E|E]; rewrite E.
+      * left. destruct g; reflexivity.
+      * destruct (FP.fix_block_grp (oracle []) (blk_of sh I b bs) g) as [E'|E']; rewrite E'; [left|right]; destruct g; reflexivity.
+Qed.
 End Init.
